@@ -65,6 +65,7 @@ def run(ctx):
         hists.append(H.gen_swap(ctx.rng, nocache=True))
         hists.append(H.gen_swap(ctx.rng, nocache=False))
         hists.append(H.gen_globout(ctx.rng))
+        hists.append(H.gen_samerel(ctx.rng))
     ctx.coverage["rule"] = ("layered DAGs of 2-6 targets (file/dir outputs, aliases incl. chains, globs with excludes, 1-2 targets per package), "
                             "histories of 2-5 edit/tamper/taint steps each followed by a build with a random selection; families: "
                             + ", ".join("%s x%d" % f for f in (FAMILIES_QUICK if quick else FAMILIES_THOROUGH)) +
